@@ -123,6 +123,7 @@ def _core():
                                [nth(seq_append(s, x), i)]))
     y_ = const("y_")
     axiom(T, "append-has", FA([s, x, y_], has(seq_append(s, x), y_) == z3.Or(y_ == x, has(s, y_)), [has(seq_append(s, x), y_)]))
+    axiom(T, "concat-has", FA([s, t, y_], has(seq_concat(s, t), y_) == z3.Or(has(s, y_), has(t, y_)), [has(seq_concat(s, t), y_)]))
     axiom(T, "concat-len", FA([s, t], len_(seq_concat(s, t)) == len_(s) + len_(t), [seq_concat(s, t)]))
     axiom(T, "concat-nth", FA([s, t, i], nth(seq_concat(s, t), i) == z3.If(i < len_(s), nth(s, i), nth(t, i - len_(s))),
                                [nth(seq_concat(s, t), i)]))
